@@ -235,10 +235,10 @@ ExtendList(l, elems) ==
           IF i = 0 THEN l ELSE SetChild(F[i-1], IKey(Len(F[i-1].ch)), elems[i][2])
     IN F[Len(elems)]
 
-RECURSIVE RemoveAt(_, _)
-RemoveAt(n, p) ==
+RECURSIVE RemovePathAt(_, _)
+RemovePathAt(n, p) ==
     IF Len(p) = 1 THEN DelChildRaw(n, p[1])
-    ELSE SetChildRaw(n, Head(p), RemoveAt(Child(n, Head(p)), Tail(p)))
+    ELSE SetChildRaw(n, Head(p), RemovePathAt(Child(n, Head(p)), Tail(p)))
 
 RECURSIVE PremergeNode(_, _, _, _), PremergeKids(_, _, _, _)
 
@@ -250,16 +250,16 @@ PremergeNode(n, path, into, intoNone) ==
            ELSE LET t == At(into, path)
                 IN IF ~IsList(t) THEN Err("PremergeError", path, path)
                    ELSE IF Mut("AppendPrepends")
-                   THEN [o |-> ExtendList([t EXCEPT !.ch = <<>>], n.ch \o t.ch), into |-> RemoveAt(into, path)]
-                   ELSE [o |-> ExtendList(t, n.ch), into |-> RemoveAt(into, path)]
+                   THEN [o |-> ExtendList([t EXCEPT !.ch = <<>>], n.ch \o t.ch), into |-> RemovePathAt(into, path)]
+                   ELSE [o |-> ExtendList(t, n.ch), into |-> RemovePathAt(into, path)]
       [] n.k = "extend" ->
            IF intoNone \/ ~HasPath(into, path) \/ path = <<>> THEN [o |-> PlainListOf(n, "T"), into |-> into]
            ELSE LET t == At(into, path)
                 IN IF ~IsList(t) THEN [o |-> PlainListOf(n, "T"), into |-> into]
-                   ELSE [o |-> ExtendList(t, n.ch), into |-> RemoveAt(into, path)]
+                   ELSE [o |-> ExtendList(t, n.ch), into |-> RemovePathAt(into, path)]
       [] n.k = "prev" ->
            IF intoNone \/ n.ref = <<>> \/ ~HasPath(into, n.ref) THEN Err("PremergeError", path, n.ref)
-           ELSE [o |-> At(into, n.ref), into |-> IF Mut("PrevCopies") THEN into ELSE RemoveAt(into, n.ref)]
+           ELSE [o |-> At(into, n.ref), into |-> IF Mut("PrevCopies") THEN into ELSE RemovePathAt(into, n.ref)]
       [] n.k = "clear" ->
            IF intoNone \/ ~HasPath(into, path) THEN Err("PremergeError", path, path)
            ELSE LET t == At(into, path)
